@@ -1058,6 +1058,23 @@ class SymEx:
             return out
         if isinstance(e, (ast.ListComp, ast.GeneratorExp, ast.SetComp)) and len(e.generators) == 1:
             return self.comprehension(e, st, func)
+        if isinstance(e, (ast.ListComp, ast.GeneratorExp)) and len(e.generators) == 2:
+            # [E for a in A for b in B]  is the concatenation of  [[E for b in B] for a in A]
+            inner = ast.ListComp(elt=e.elt, generators=[e.generators[1]])
+            outer = ast.ListComp(elt=inner, generators=[e.generators[0]])
+            for x in (inner, outer):
+                ast.copy_location(x, e)
+            out = []
+            for s2, v in self.comprehension(outer, st, func):
+                seq = self.as_sequence(v)
+                if seq is not None and all(self.as_sequence(x) is not None for x in seq):
+                    flat = []
+                    for x in seq:
+                        flat.extend(self.as_sequence(x))
+                    out.append((s2, ListV(flat)))
+                else:
+                    out.append((s2, CallV('flatten', [v])))
+            return out
         if isinstance(e, ast.Lambda):
             return [(st, ('lambda', e, func, dict(st.env)))]          # a closure over the defining frame
         if isinstance(e, ast.Starred):
